@@ -34,6 +34,15 @@ def check_history(sc, r):
     agents = {s["sid"] for s in sc["sims"] if s.get("stub") == "async"}
     legal_async = {(sc["sims"][c["src"]]["sid"], sc["sims"][c["dst"]]["sid"])
                    for c in sc["conns"] if c.get("async")}     # (plant, agent)
+    gpath = {}
+    _groups = sc.get("groups") or [None]
+    for s_ in sc["sims"]:
+        g, pth = s_.get("group", 0), []
+        while g is not None:
+            pth.append(g)
+            g = _groups[g]
+        gpath[s_["sid"]] = tuple(pth)
+    open_agent_tau = {}
     pending = {}       # target sid -> {(eid, attr, src_full): (value, q)}
     delivered = {}     # value -> count
     open_agent = {}    # agent -> time of its open step
@@ -49,8 +58,10 @@ def check_history(sc, r):
         if k == "begin" and h[1] == "step":
             sid, t, inputs = h[2], h[4][0], norm_inputs(h[4][1])
             cur_time[sid] = t
+            tau = h[3]
             if sid in agents:
                 open_agent[sid] = t
+                open_agent_tau[sid] = tau
             else:
                 plant_open[sid] = t
             # (b) A does not begin a step later than t before B's step at t has finished
@@ -61,6 +72,12 @@ def check_history(sc, r):
                     viols.append({"kind": "plant_overtakes_open_agent_step", "features": {},
                                   "detail": {"plant": sid, "time": t, "agent": agent,
                                              "agent_time": open_agent[agent], "q": q}})
+                elif agent in open_agent and gpath[agent] == gpath[sid] and tau is not None \
+                        and open_agent_tau.get(agent) is not None and tuple(open_agent_tau[agent]) < tuple(tau):
+                    # same group: "later than t" includes later sub-steps of the same time step
+                    viols.append({"kind": "plant_overtakes_open_agent_step", "features": {"substep": True},
+                                  "detail": {"plant": sid, "tau": tau, "agent": agent,
+                                             "agent_tau": open_agent_tau[agent], "q": q}})
                 nd = next_due.get(agent)
                 if agent not in open_agent and nd is not None and nd < t and nd < until:
                     viols.append({"kind": "plant_overtakes_pending_agent_step", "features": {},
@@ -84,6 +101,7 @@ def check_history(sc, r):
             sid = h[2]
             if sid in agents:
                 open_agent.pop(sid, None)
+                open_agent_tau.pop(sid, None)
                 ret = h[3]
                 next_due[sid] = ret if isinstance(ret, int) else None
             else:
